@@ -10,3 +10,5 @@ func dagVerifCorrupt(st dag.State, ref hash.SHA256Hash, clock uint32) error {
 }
 
 func dagVerifCheckPage(st dag.State, page uint32) { dag.VerifCheckPage(st, page) }
+
+func dagVerifRepairRound(st dag.State) uint32 { return dag.VerifRepairRound(st) }
